@@ -368,6 +368,9 @@ def or_split_in_loop() -> dict:
     return {
         "name": "or_split_in_loop",
         "confluent": True,
+        # c is skipped in the first iteration: whether the jump re-arms it (SKIPPED -> NOT_STARTED) depends on whether its
+        # SkipStage was handled before the jump, so the per-stage iteration LABEL of its one execution is order-dependent
+        "loose_iter_labels": True,
         "stages": [
             st("a", [], [dict(OK, raw_by_iter={"0": {"go_b": True, "go_c": False}, "1": {"go_b": False, "go_c": True}}, out=["a_o"])], split="OR", conds={"b": "go_b", "c": "go_c"}),
             st("b", ["a"], [{"kind": "jump", "to": "a", "times": 1, "out": ["b_o"]}]),
